@@ -224,6 +224,12 @@ class Engine:
         self.ad_vars = set()
         self.shard = None
         self.summarize_loops = False
+        self.pre_hooks = {}
+        self.call_override = None
+        self._ovr_cache = {}
+        self.contracts_hit = {}
+        self._hook_cache = {}
+        self.hooks_hit = {}
         self.snap_pi = True
         self.atom_cache = {}
         self.concrete_checks = []
@@ -1525,6 +1531,10 @@ class Engine:
                 raise Inconclusive("indirect call to unknown address %#x" % target)
             name = fn.name
         model = self.models.get(name)
+        if model is None and self.call_override is not None:
+            model = self._ovr_cache.get(name, 0)
+            if model == 0:
+                model = self._ovr_cache[name] = self.call_override(name)
         if model is None and fn is not None and fn.declared_only:
             model = self.find_model(name)
         if model is not None:
@@ -1540,6 +1550,18 @@ class Engine:
             raise Inconclusive("call to external function %s" % name)
         argv = [self.val(st, fr, a) for a, _ in args]
         self.called.add(name)
+        if self.pre_hooks:
+            hk = self._hook_cache.get(name, 0)
+            if hk == 0:
+                hk = None
+                for sub, f in self.pre_hooks.items():
+                    if sub in name:
+                        hk = f
+                        break
+                self._hook_cache[name] = hk
+            if hk is not None:
+                self.hooks_hit[name] = self.hooks_hit.get(name, 0) + 1
+                hk(self, st, argv, name)
         nf = Frame(fn, ret_dest=ins.dest, normal=(ins.x[0] if ins.op == "invoke" else None))
         loc = nf.locals
         for (pty, pname, pattrs), (aop, aattrs), av in zip(fn.params, args, argv):
